@@ -6,7 +6,9 @@ from a rep, `$`, a local passed down, a label declared through a parameter) x EV
 the colliding identifier pool {a, b, i} to the skeleton's name slots x w x every 2-way (thorough:
 3-way) split of the source into files. Oracle R4 (fjv/ref/macro.py): the program is inlined on the
 generator's AST and the macro-free result goes through the real assembler; the two images must be
-identical, and so must the image of every file split.
+identical, and so must the image of every file split. Each worker process first assembles (with the
+standard library) a program that defines a, b, i as constants; every program is then also assembled
+next to the standard library and must give the same image (no capture across assemblies).
 """
 import itertools
 import sys
@@ -17,7 +19,7 @@ from fjv.runner import Run, Sieve, parse_args, pmap, load_replay, main_guard
 PROP = 'C03'
 
 
-def assemble_image(texts, w, wd, tag):
+def assemble_image(texts, w, wd, tag, use_stl=False):
     """-> ('ok', normalized image) | ('rejected', msg) | ('raw', msg)"""
     from fjv.asm import assemble_text
     from fjv.ref import fjm as R2
@@ -25,7 +27,7 @@ def assemble_image(texts, w, wd, tag):
     from flipjump.utils.exceptions import FlipJumpException
     out = wd / f'c03-{tag}.fjm'
     try:
-        assemble_text(texts, out, wd, w=w, version=1, use_stl=False, werror=False)
+        assemble_text(texts, out, wd, w=w, version=1, use_stl=use_stl, werror=False)
     except FlipJumpException as e:
         return ('rejected', f'{type(e).__name__}: {str(e)[:300]}')
     except Exception as e:  # noqa
@@ -33,7 +35,17 @@ def assemble_image(texts, w, wd, tag):
     return ('ok', R2.normalize(*R2.reader_image(Reader(out))))
 
 
-def check_program(name, slots, program, w, wd, sieve, stats, split_depth):
+PRIME = 'a = 3\nb = 5\ni = 7\nx = a + b\nq:\n  ;q + a*dw\n  b;q + i\n'
+
+
+def prime(w, wd):
+    """the process's first assembly with the standard library defines every pool name as a constant"""
+    r = assemble_image(PRIME, w, wd, 'prime', use_stl=True)
+    assert r[0] == 'ok', r
+    return True
+
+
+def check_program(name, slots, program, w, wd, sieve, stats, split_depth, primed=False):
     from fjv.ref import macro as R4
     chunks = R4.top_level_chunks(program)
     text = ''.join(chunks)
@@ -67,6 +79,16 @@ def check_program(name, slots, program, w, wd, sieve, stats, split_depth):
         bad('image differs from the inlined program', 'identical images', {'differing (word, value) pairs': diff, 'segments': [got[1][1], ref[1][1]]},
             {'inlined': prim_text})
         return None
+    # the same program next to the standard library, in a process whose first assembly defined the pool's names as constants:
+    # the program's own names keep their meaning (the stl only defines macros / namespaced constants, so the image is the same)
+    if primed:
+        lib = assemble_image(text, w, wd, 'stl', use_stl=True)
+        stats['assemblies'] += 1
+        stats['with_stl_after_constants'] = stats.get('with_stl_after_constants', 0) + 1
+        if lib[0] != 'ok' or lib[1] != got[1]:
+            bad('names captured by constants that an earlier program of the same process defined', 'the image of the program alone',
+                lib[1] if lib[0] != 'ok' else 'different image', {'earlier_program': PRIME})
+            return None
     # file splits
     n = len(chunks)
     cuts = [(k,) for k in range(1, n)]
@@ -93,10 +115,11 @@ def work(task):
     wd = scratch()
     sample = None
     per_skeleton = {}
+    primed = prime(w, wd)
     for i, (name, slots, program, collisions) in enumerate(gen_macros.programs()):
         if i % nparts != part:
             continue
-        r = check_program(name, slots, program, w, wd, sieve, stats, 3 if tier == 'thorough' else 2)
+        r = check_program(name, slots, program, w, wd, sieve, stats, 3 if tier == 'thorough' else 2, primed)
         if r:
             per_skeleton[name] = per_skeleton.get(name, 0) + 1
             if collisions:
@@ -116,7 +139,8 @@ def replay(args):
     program = sk[3](tuple(c['slots']))
     sieve = Sieve(PROP)
     stats = {'assemblies': 0, 'programs': 0, 'splits': 0}
-    check_program(c['skeleton'], tuple(c['slots']), program, c['w'], scratch(), sieve, stats, 3)
+    wd = scratch()
+    check_program(c['skeleton'], tuple(c['slots']), program, c['w'], wd, sieve, stats, 3, prime(c['w'], wd))
     print(c['text'])
     for r in sieve.records:
         print('PROBLEM', r['summary'], r['observed'])
